@@ -151,8 +151,25 @@ Definition sub_expiry_inv (ob : obs) : bool :=
    written in this block is not yet in the committed tree *)
 Definition trig_uncommitted_sub (committed : list name) (b : obs) (op0 : op) : bool :=
   match op0 with
-  | Purchase _ _ p _ =>
+  | Purchase _ _ p _ | Renew _ p _ =>
       existsb (fun n => is_sub_of p n && negb (bool_decide (n ∈ committed))) (obs_names b)
+  | _ => false
+  end.
+
+(* "a sub-name expires with its parent": the sub-names of the new state whose expiry differs
+   from their parent's although it did not before (or they are new) *)
+Definition expiry_agrees (r : gmap name domain) (n : name) (d : domain) : bool :=
+  match r !! parent_name n with Some p => d_expiry d =? d_expiry p | None => true end.
+Definition sub_expiry_broken (b a : obs) : list name :=
+  map fst (filter (fun '(n, d) =>
+    is_sub n && negb (expiry_agrees (obs_reg a) n d) &&
+    match obs_reg b !! n with Some d0 => expiry_agrees (obs_reg b) n d0 | None => true end) (ob_reg a)).
+(* such a sub-name is inside the known trigger region iff it is not in the committed tree and
+   the transaction renews or purchases its parent *)
+Definition sub_expiry_known (committed : list name) (op0 : op) (n : name) : bool :=
+  negb (bool_decide (n ∈ committed)) &&
+  match op0 with
+  | Purchase _ _ p _ | Renew _ p _ => bool_decide (p = parent_name n)
   | _ => false
   end.
 
@@ -204,7 +221,8 @@ Definition listed_after (listed : list (name * addr)) (op0 : op) (ok : bool) : l
   | _ => listed
   end.
 
-(* classes: 0 none; 7 a name is on sale without its owner's sell transaction; 1 unauthorised change; 3 expiry not the blocks bought; 4 sub-name
+(* classes: 0 none; 7 a name is on sale without its owner's sell transaction;
+   8 a sub-name no longer expires with its parent; 1 unauthorised change; 3 expiry not the blocks bought; 4 sub-name
    invariant broken; 5 failed transaction left a trace; 6 two records for one name;
    11 = class 4 inside the known trigger region *)
 Definition monitor_step (o : opts) (committed : list name) (listed : list (name * addr)) (b : obs)
@@ -231,7 +249,10 @@ Definition monitor_step (o : opts) (committed : list name) (listed : list (name 
         if sub_inv b && negb (sub_inv a)
         then (if trig_uncommitted_sub committed b op0 then 11%nat else 4%nat) else
         if sub_expiry_inv b && negb (sub_expiry_inv a)
-        then (if trig_uncommitted_sub committed b op0 then 11%nat else 4%nat)
+        then (if trig_uncommitted_sub committed b op0 then 11%nat else 4%nat) else
+        if negb (forallb (sub_expiry_known committed op0) (sub_expiry_broken b a))
+        then 8%nat else
+        if (0 <? length (sub_expiry_broken b a))%nat then 11%nat
         else 0%nat
   end.
 
@@ -280,3 +301,12 @@ Definition flat2 (l : list (nat * nat)) : list Z :=
   flat_map (fun '(a, b) => [Z.of_nat a; Z.of_nat b]) l.
 Definition flat3 (l : list (nat * nat * nat)) : list Z :=
   flat_map (fun '(a, b, c) => [Z.of_nat a; Z.of_nat b; Z.of_nat c]) l.
+
+(* the trigger region C20.purchase_misses_uncommitted_sub for renewals as well: the parent is
+   renewed or purchased while one of its sub-names is not yet in the committed tree *)
+Definition trig_uncommitted (s : state) (o : op) : bool :=
+  match o with
+  | Purchase _ _ p _ | Renew _ p _ =>
+      existsb (fun n => is_sub_of p n && negb (bool_decide (n ∈ snap s))) (map fst (map_to_list (reg s)))
+  | _ => false
+  end.
